@@ -24,6 +24,7 @@ def setup(world):
     world.opaque_sig('get', log=False)
     world.opaque_ctor('Statement')
     world.opaque_ctor('YaqlFactory')
+    world.opaque_attr_default = True
     world.callee_contract('yaql.language.expressions.Function.__call__',
                           raises={'WrappedException': True})
 
